@@ -261,22 +261,14 @@ def d6_4(ctx):
                   "public decode does not wrap the buffer exactly once / passes the raw buffer to a nested decoder (a shared stream would be re-read from the start)")
 
 
-@rule(P, "D6.5", "T-SIB", floor=1)
+@rule(P, "D6.5", "T-WITNESS", floor=1)
 def d6_5(ctx):
-    """Struct: dict and positional encodings walk cls.members in the same order with the member's own encode."""
-    st = ctx.model.cls(f"{DT}:Struct.Struct")
-    dc, fn, lay = write_layout(ctx, st)
-    fl = flatten(lay or [])
-    good, facts = False, {"layout": show(lay)}
-    if len(fl) == 1 and fl[0][0] == "alt":
-        a, b = fl[0][2], fl[0][3]
-        if len(a) == 1 and len(b) == 1 and a[0][0] == "each" and b[0][0] == "each":
-            ia, ib = a[0][2], b[0][2]
-            ea, eb = a[0][3], b[0][3]
-            good = ia == "cls.members" and ib.startswith("zip(cls.members,") and ea[0][1] == "typ.encode(values[typ.name])" and eb[0][1] == "typ.encode(val)"
-            good = good and "isinstance(values,dict)" in fl[0][1]
-    ctx.check(good, ckey(st.key + "._encode", "dict-vs-seq"), fn or st.node, "both input forms iterate cls.members in order and use each member's encode",
-              "dict and positional struct encodings do not walk cls.members identically", **facts)
+    """Struct: dict and positional encodings walk cls.members in the same order with the member's own encode; decode visits the
+    members in the same order.  Decided by folding the generated class on witness members (D6.15); an earlier form compared the
+    layouts of the two generator expressions and alarmed on explicit loops."""
+    from .driver import _struct_rule
+
+    _struct_rule(ctx)
 
 
 @rule(P, "D6.6", "T-WITNESS", floor=4)
